@@ -6,6 +6,7 @@ Real side: a `RecordTensor` on a fresh `inferno.Module`; protocol lines are thos
 from __future__ import annotations
 
 import itertools
+import zlib
 
 import torch
 import torch.nn as nn
@@ -125,6 +126,21 @@ class Real:
         dt = OFF_DTYPES[parts[2]] if len(parts) > 2 else torch.int64
         return torch.tensor(ints(vs), dtype=dt).reshape(shp(sh))
 
+    def _handed(self, tok, x, inplace):
+        """the tensor handed to a write: for some lines (chosen by a hash of the line, so that a replay repeats it) a float
+        observation written out of place into buffer storage REQUIRES GRAD (the storage then carries a grad_fn, later in-place
+        writes must still land); returns the tensor and whether the caller overwrites it in place after the call (the record
+        must hold the observation, not a reference to the caller's tensor)"""
+        h = zlib.crc32(" ".join(tok).encode())
+        if x.is_floating_point() and not inplace and h % 3 == 0 and not isinstance(self.rt.value, nn.Parameter):
+            x.requires_grad_(True)
+        return x, h % 2 == 0
+
+    @staticmethod
+    def _scribble(x):
+        with torch.no_grad():
+            x.mul_(0).sub_(7)
+
     def _exec(self, tok):
         rt = self.rt
         op = tok[0]
@@ -133,7 +149,10 @@ class Real:
         if op == "dump":
             return self._dump()
         if op == "push":
-            rt.push(self._obs(tok[1]), inplace=tok[2] == "T")
+            x, scribble = self._handed(tok, self._obs(tok[1]), tok[2] == "T")
+            rt.push(x, inplace=tok[2] == "T")
+            if scribble:
+                self._scribble(x)
             return "ok"
         if op == "pop":
             r = rt.pop()
@@ -147,7 +166,10 @@ class Real:
         if op == "read":
             return "row " + row_s(rt.read(int(tok[1])))
         if op == "write":
-            rt.write(self._obs(tok[1]), offset=int(tok[2]), inplace=tok[3] == "T")
+            x, scribble = self._handed(tok, self._obs(tok[1]), tok[3] == "T")
+            rt.write(x, offset=int(tok[2]), inplace=tok[3] == "T")
+            if scribble:
+                self._scribble(x)
             return "ok"
         if op == "readrange":
             r = rt.readrange(int(tok[1]), int(tok[2]), forward=tok[3] == "T")
@@ -159,10 +181,16 @@ class Real:
             flat = r.reshape(-1, L)
             return "cols " + "|".join(row_s(flat[p]) for p in range(flat.shape[0]))
         if op == "writerange":
-            rt.writerange(self._range(tok[1]), int(tok[2]), forward=tok[3] == "T", inplace=tok[4] == "T")
+            x, scribble = self._handed(tok, self._range(tok[1]), tok[4] == "T")
+            rt.writerange(x, int(tok[2]), forward=tok[3] == "T", inplace=tok[4] == "T")
+            if scribble:
+                self._scribble(x)
             return "ok"
         if op == "writerangeT":
-            rt.writerange(self._range(tok[1]), self._offs(tok[2]), forward=tok[3] == "T", inplace=tok[4] == "T")
+            x, scribble = self._handed(tok, self._range(tok[1]), tok[4] == "T")
+            rt.writerange(x, self._offs(tok[2]), forward=tok[3] == "T", inplace=tok[4] == "T")
+            if scribble:
+                self._scribble(x)
             return "ok"
         if op == "incr":
             p = rt.incr(int(tok[1]))
